@@ -345,3 +345,46 @@ def redeclaration_model(ctx, rule):
                 key="%s::names-inherited-next-to-a-new-list" % SEL, input="class A: s = Selector(objects={'one': 1, 'two': 2}); class B(A): s = Selector(objects=[3, 4]) -> B.param.s.names == {'one': 1, 'two': 2}")
             return
     ctx.ok(rule, f, f.node, "a Selector re-declared without objects leaves objects and labels to be inherited together; one given a plain list starts with an empty label mapping of its own")
+
+
+def update_state_model(ctx, rule):
+    """Selector._update_state (the hook __param_inheritance runs AFTER merging the inherited slots and BEFORE re-validating
+    the merged default) interpreted on check_on_set True / False x a dynamic default function present / absent, with a
+    merged default that is not among the objects.
+
+    Specification: the default is appended to the objects only when check_on_set is False; with check_on_set True the
+    objects stay as declared, so the re-validation refuses the class (an inherited default outside the narrowed objects)."""
+    f = ctx.hier.resolve(SEL, "_update_state")
+    problems, n = [], 0
+    for check_on_set, has_fn in [(c, h) for c in (True, False) for h in (True, False)]:
+        default = Obj("merged_default_outside_the_objects")
+        sel = Obj("selector", check_on_set=check_on_set, default=default, compute_default_fn=(Obj("default_function", __callable__=True) if has_fn else None),
+                  _objects=[Obj("object_1"), Obj("object_2")], names={})
+        ensured = []
+
+        def hook(fn, args, kwargs):
+            if fn.endswith("._ensure_value_is_in_objects") and len(args) == 1:
+                ensured.append(args[0])
+                return None
+            if fn == "callable" and len(args) == 1:
+                return isinstance(args[0], Obj) and bool(args[0].attrs.get("__callable__"))
+            return NotImplemented
+        it = Interp(ctx.hier, dyn=SEL, inline=lambda m: False, call_hook=hook)
+        try:
+            outs = it.run_all(f, {f.params[0]: sel})
+        except Unsupported as e:
+            raise AnalysisError("selector model: absint cannot interpret Selector._update_state: %s" % e)
+        if len(outs) != 1 or outs[0].imprecise or outs[0].kind != "return":
+            raise AnalysisError("selector model: Selector._update_state is not interpretable precisely (%s)" % (outs[0].notes[:2] if outs else "no outcome"))
+        n += 1
+        want = not check_on_set
+        if bool(ensured) != want:
+            problems.append("with check_on_set=%s%s the merged default is %s the objects, specification %s: %s" % (
+                check_on_set, " and a dynamic default function" if has_fn else "", "appended to" if ensured else "not appended to", "appended" if want else "left out",
+                "the re-validation that follows can no longer refuse a class whose inherited default lies outside the objects it declares" if ensured else "an unchecked selector loses its default"))
+    ctx.abstract_cases += n
+    if problems:
+        ctx.fail(rule, f, f.node, "selector model (_update_state): %s (%d disagreeing case(s))" % (problems[0], len(problems)), key="%s::update-state" % SEL,
+                 input="class A: s = Selector(objects=[1, 2, 3], default=3, compute_default_fn=f); class B(A): s = Selector(objects=[1, 2]) -> B is created with objects [1, 2, 3]")
+    else:
+        ctx.ok(rule, f, f.node, "selector model: _update_state extends the objects with the merged default only when check_on_set is False (%d cases)" % n)
